@@ -53,6 +53,8 @@ func runUpstreamFamily(s *Sim, prop string) {
 	// upstream is opened, and the broker gives it a stream id alias that a closed one had
 	secondGen := prop == "C01" && t.Bool("second-generation", 1, 4)
 	bc.ReuseAliases = secondGen
+	// stream id aliases numbered from 0: alias 0 is an alias like any other
+	bc.AliasFromZero = prop == "C01" && t.Bool("alias-from-zero", 1, 3)
 	y := newSys(s, bc)
 	if t.Bool("json", 1, 4) {
 		y.Enc = iscp.EncodingNameJSON
@@ -278,6 +280,22 @@ func runUpstreamFamily(s *Sim, prop string) {
 			return
 		}
 	}
+	// hooks far slower than the event rate: a few hundred chunks are sent and acknowledged while the first
+	// hook calls are still running, so that hundreds of notifications wait behind them; each is delivered once
+	if prop == "C01" && hookDelay > 0 && !keepAcksPending && s.Idle(0) && t.Bool("notification-backlog", 1, 3) {
+		h := y.Ups[t.Choose("backlog-up", len(y.Ups))]
+		nb := Pick(t, "backlog-chunks", 150, 200, 300)
+		for k := 0; k < nb && s.Idle(0); k++ {
+			s.Start(0, y.writeFlushOp(h, 0, dataID(k%nIDs), []int{8}))
+			s.Wait()
+			y.flushLinks()
+			s.Harvest()
+		}
+		s.StatN("env.chunks-sent-while-hooks-lag", nb)
+		y.PumpUntil(func() bool { return !s.AnyBusy() }, 100*time.Millisecond, 30*time.Second)
+		y.Advance(time.Duration(4*nb) * hookDelay)
+		y.Pump()
+	}
 	// final explicit flush barrier for C20 (no concurrent writers now)
 	if prop == "C20" {
 		for _, h := range y.Ups {
@@ -292,8 +310,15 @@ func runUpstreamFamily(s *Sim, prop string) {
 			op.Meta = &flushBarrier{h: h, snap: sn}
 		}
 	}
-	// close streams while the network keeps making random progress
-	for _, h := range y.Ups {
+	// close streams while the network keeps making random progress (in either order: what closing one
+	// stream tears down must not be something another one still uses)
+	closeOrder := append([]*upH(nil), y.Ups...)
+	if len(closeOrder) > 1 && t.Bool("close-in-reverse-order", 1, 2) {
+		for i, j := 0, len(closeOrder)-1; i < j; i, j = i+1, j-1 {
+			closeOrder[i], closeOrder[j] = closeOrder[j], closeOrder[i]
+		}
+	}
+	for _, h := range closeOrder {
 		h := h
 		var op *Op
 		if raceClose {
